@@ -32,6 +32,8 @@ StepEv(c, ev, q, tol) ==
                            ELSE GStepIdle(c, ev, ev.same)
       [] ev.ev = "at"   -> AtStep(c, ev, q, tol, ev.same)
       [] ev.ev = "addr" -> AddRegionStep(c, ev.reg)
+      \* the region list was edited directly (update / delete between two commands)
+      [] ev.ev = "regs" -> [c EXCEPT !.n = c.n + 1, !.regs = ev.rl]
       [] ev.ev = "pev"  -> PevStep(c, ev)
       [] ev.ev = "set"  -> SetStep(c, ev.store)
       [] ev.ev = "hook" -> HookStep(c, ev, q, tol)
